@@ -213,48 +213,45 @@ fn current_op(p: &Parser<'_>) -> (u8, SyntaxKind, Associativity) {
     // It seems that return value is never checked for `NOT_AN_OP`
     // r-a had @ for not an op. But we use triple dot
     const NOT_AN_OP: (u8, SyntaxKind, Associativity) = (0, T![...], Left);
+    // Binding powers follow the operator precedence table of the OpenQASM 3 specification
+    // (tightest first): `**` (right associative), unary, `* / %`, `+ -`, `<< >>`,
+    // `< <= > >=`, `== !=`, `&`, `^`, `|`, `&&`, `||`. The operand of a prefix operator is
+    // parsed with binding power 13 (see `lhs`), between `* / %` (12) and `**` (14).
     match p.current() {
         T![|] if p.at(T![||])  => (3,  T![||],  Left),
         T![|] if p.at(T![|=])  => (1,  T![|=],  Right),
-        T![|]                  => (6,  T![|],   Left),
+        T![|]                  => (5,  T![|],   Left),
         T![>] if p.at(T![>>=]) => (1,  T![>>=], Right),
-        T![>] if p.at(T![>>])  => (9,  T![>>],  Left),
-        T![>] if p.at(T![>=])  => (5,  T![>=],  Left),
-        T![>]                  => (5,  T![>],   Left),
+        T![>] if p.at(T![>>])  => (10, T![>>],  Left),
+        T![>] if p.at(T![>=])  => (9,  T![>=],  Left),
+        T![>]                  => (9,  T![>],   Left),
         T![=] if p.at(T![=>])  => NOT_AN_OP,
-        T![=] if p.at(T![==])  => (5,  T![==],  Left),
-        // r-a had 1 as the bp here. But this attempts to parse
-        // `x + y = 3`; as `(x + y) = 3;` which is probably not what the user meant.
-        // Putting 12 as the bp instead of 1 parses this as
-        // `x + (y = 3)`. In OQ3, this is still illegal, but the user will get a more
-        // informative error message. That an assignment statement is not allowed here.
-        // This may have unintended consequences and we will need to replace the 12 with 1.
-        T![=]                  => (12,  T![=],   Right),
-        T![<] if p.at(T![<=])  => (5,  T![<=],  Left),
+        T![=] if p.at(T![==])  => (8,  T![==],  Left),
+        T![=]                  => (15, T![=],   Right),
+        T![<] if p.at(T![<=])  => (9,  T![<=],  Left),
         T![<] if p.at(T![<<=]) => (1,  T![<<=], Right),
-        T![<] if p.at(T![<<])  => (9,  T![<<],  Left),
-        T![<]                  => (5,  T![<],   Left),
+        T![<] if p.at(T![<<])  => (10, T![<<],  Left),
+        T![<]                  => (9,  T![<],   Left),
         T![+] if p.at(T![+=])  => (1,  T![+=],  Right),
-        // `++` is the concatenation op and should have some low value for bp.
         T![+] if p.at(T![++])  => (2,  T![++],  Left),
-        T![*] if p.at(T![**])  => (7,  T![**],  Left),
-        T![+]                  => (10, T![+],   Left),
+        T![*] if p.at(T![**])  => (14, T![**],  Right),
+        T![+]                  => (11, T![+],   Left),
         T![^] if p.at(T![^=])  => (1,  T![^=],  Right),
-        T![^]                  => (7,  T![^],   Left),
+        T![^]                  => (6,  T![^],   Left),
         T![%] if p.at(T![%=])  => (1,  T![%=],  Right),
-        T![%]                  => (11, T![%],   Left),
+        T![%]                  => (12, T![%],   Left),
         T![&] if p.at(T![&=])  => (1,  T![&=],  Right),
         T![&] if p.at(T![&&])  => (4,  T![&&],  Left),
-        T![&]                  => (8,  T![&],   Left),
+        T![&]                  => (7,  T![&],   Left),
         T![/] if p.at(T![/=])  => (1,  T![/=],  Right),
-        T![/]                  => (11, T![/],   Left),
+        T![/]                  => (12, T![/],   Left),
         T![*] if p.at(T![*=])  => (1,  T![*=],  Right),
-        T![*]                  => (11, T![*],   Left),
+        T![*]                  => (12, T![*],   Left),
         T![.] if p.at(T![..=]) => (2,  T![..=], Left),
         T![.] if p.at(T![..])  => (2,  T![..],  Left),
-        T![!] if p.at(T![!=])  => (5,  T![!=],  Left),
+        T![!] if p.at(T![!=])  => (8,  T![!=],  Left),
         T![-] if p.at(T![-=])  => (1,  T![-=],  Right),
-        T![-]                  => (10, T![-],   Left),
+        T![-]                  => (11, T![-],   Left),
         _                      => NOT_AN_OP
     }
 }
@@ -357,7 +354,7 @@ fn lhs(p: &mut Parser<'_>, r: Restrictions) -> Option<(CompletedMarker, BlockLik
         }
     };
     // parse the interior of the unary expression
-    expr_bp(p, None, r, 255);
+    expr_bp(p, None, r, 13);
     let cm = m.complete(p, kind);
     Some((cm, BlockLike::NotBlock))
 }
